@@ -173,6 +173,15 @@ func valid(tls *cfgx.TLSMaterial) []named {
 			c.AddGroup(cfg.Host("h:2"), cfg.ConnectTLSExCA(0, tls.Cert), cfg.SelectorSemiRandom)
 			return c
 		}()},
+		{"wc2-1hdr", cfg.Pack(cfg.ConnectWC2("/a", "", "", map[string]string{"k": "v"}))},
+		{"wc2-3hdr", cfg.Pack(cfg.Host("h"), cfg.ConnectWC2("/a", "x", "", map[string]string{"a": "1", "bb": "", "ccc": "333"}), cfg.Jitter(2))},
+		{"wc2-emptyname", cfg.Pack(cfg.ConnectWC2("/a", "", "", map[string]string{"": "v"}))},
+		{"wc2-emptyname-mid", cfg.Pack(cfg.Host("h"), cfg.ConnectWC2("", "", "a", map[string]string{"": "v"}), cfg.WrapHex)},
+		{"wc2-empty-both", cfg.Pack(cfg.ConnectWC2("/a", "", "", map[string]string{"": ""}), cfg.Host("h"))},
+		{"wc2-emptyname-2", cfg.Pack(cfg.Host("h"), cfg.ConnectWC2("/", "", "", map[string]string{"": "v", "k": "w"}))},
+		{"dns-emptyname", cfg.Pack(cfg.Host("h"), cfg.TransformDNS("a.b", "", "c.d"))},
+		{"dns-only-empty", cfg.Pack(cfg.TransformDNS(""), cfg.Host("h"))},
+		{"xor-empty", cfg.Pack(cfg.Host("h"), cfg.WrapXOR(nil), cfg.ConnectTCP)},
 		{"dns-late", cfg.Pack(cfg.Sleep(time.Second), cfg.Host("h"), cfg.TransformDNS("a.com", "b.com"))},
 		{"host-300", cfg.Pack(cfg.Jitter(3), cfg.Host(string(pat(300, 'a', 0))), cfg.ConnectTCP)},
 		{"xor-300", cfg.Pack(cfg.Jitter(3), cfg.Weight(3), cfg.WrapXOR(pat(300, 1, 1)), cfg.ConnectTCP, cfg.Host("h"))},
